@@ -1,5 +1,660 @@
-use crate::ctx::Ctx;
-pub fn c04(_c: &mut Ctx) {}
-pub fn c05(_c: &mut Ctx) {}
-pub fn c13(_c: &mut Ctx) {}
-pub fn c14(_c: &mut Ctx) {}
+//! C04 (only rule text is executed), C05 (if / ?: / and / or), C13 (map / filter / reduce),
+//! C14 (all / some / none). These monitors lean on the effect channel: uniquely numbered
+//! `log` probes and poisoned operands make evaluation order, multiplicity and laziness
+//! observable in the captured fd-1 stream, which the generic judge compares with the
+//! model's predicted trace.
+
+use crate::corpus::*;
+use crate::ctx::{type_name, Ctx};
+use crate::observe::Outcome;
+use crate::refsem::{self, MOut};
+use serde_json::{json, Value};
+
+fn var(k: &str) -> Value {
+    json!({ "var": k })
+}
+
+struct Probes {
+    n: u64,
+}
+impl Probes {
+    fn truthy(&mut self) -> Value {
+        self.n += 1;
+        json!({ "log": format!("p{}", self.n) })
+    }
+    fn falsy(&mut self) -> Value {
+        self.n += 1;
+        json!({"!": [{"log": format!("p{}", self.n)}]})
+    }
+    fn wrap(&mut self, v: Value) -> Value {
+        // logs a unique line, then yields v (via an eager operator only: merge + var-free indexing is
+        // not available, so use substr/cat for strings and the !-forms for booleans)
+        self.n += 1;
+        match v {
+            Value::String(s) => json!({"cat": [{"substr": [{"log": format!("p{}", self.n)}, 0, 0]}, s]}),
+            Value::Bool(true) => json!({"!!": [{"log": format!("p{}", self.n)}]}),
+            Value::Bool(false) => json!({"!": [{"log": format!("p{}", self.n)}]}),
+            other => json!({"log": [other]}),
+        }
+    }
+}
+
+fn poison(r: &mut crate::rng::Rng) -> Value {
+    match r.below(4) {
+        0 => json!({"/": [1]}),
+        1 => json!({"+": ["x"]}),
+        2 => json!({"in": ["a", 5]}),
+        _ => json!({"substr": ["s"]}),
+    }
+}
+
+// =======================================================================================
+// C05
+
+/// Symbols of the operand alphabet.
+fn c05_symbol(k: usize, p: &mut Probes, r: &mut crate::rng::Rng) -> (Value, &'static str) {
+    match k {
+        0 => (json!(false), "falsy"),
+        1 => (json!(0), "falsy"),
+        2 => (json!("0"), "truthy-corner"),
+        3 => (json!([0]), "truthy-corner"),
+        4 => (json!({}), "truthy-corner"),
+        5 => (var("t"), "data-truthy"),
+        6 => (var("f"), "data-falsy"),
+        7 => (poison(r), "poison"),
+        8 => (p.truthy(), "probe-truthy"),
+        9 => (p.falsy(), "probe-falsy"),
+        10 => (json!(""), "falsy"),
+        11 => (json!([]), "falsy"),
+        12 => (json!(null), "falsy"),
+        _ => (json!("v"), "truthy"),
+    }
+}
+
+fn c05_list(ctx: &mut Ctx, items: &[(Value, &'static str)], data: &Value) {
+    let args: Vec<Value> = items.iter().map(|x| x.0.clone()).collect();
+    let has_hazard = items.iter().any(|x| x.1 == "poison" || x.1.starts_with("probe"));
+    let mut results: Vec<(&str, crate::observe::Obs, MOut)> = Vec::new();
+    for op in ["if", "?:", "and", "or"] {
+        if args.is_empty() && (op == "and" || op == "or") {
+            ctx.check("c05.model", &json!({ op: [] }), data);
+            continue;
+        }
+        let rule = json!({ op: args });
+        let (obs, mo) = ctx.check("c05.model", &rule, data);
+        // a poison that the model says is never reached must not surface
+        if let (MOut::Val(_), Outcome::Err(_)) = (&mo, &obs.out) {
+            ctx.cell(&format!("{}:poison-surfaced", op));
+        }
+        ctx.cell(&format!("{}:n={}:{}", op, args.len().min(7), match &mo {
+            MOut::Val(_) => "value",
+            MOut::Err => "err",
+            MOut::Unj(_) => "unjudged",
+        }));
+        if has_hazard {
+            ctx.mark_nontrivial(&rule, data);
+        }
+        results.push((op, obs, mo));
+    }
+    // `?:` is an exact alias of `if` (outcome and trace), no model needed
+    if results.len() >= 2 {
+        let (a, b) = (&results[0].1, &results[1].1);
+        ctx.mon("c05.alias").observed += 1;
+        ctx.mon("c05.alias").judged += 1;
+        let same = match (&a.out, &b.out) {
+            (Outcome::Ok(x), Outcome::Ok(y)) => x.to_string() == y.to_string(),
+            (Outcome::Err(_), Outcome::Err(_)) => true,
+            _ => false,
+        };
+        // probe numbers are shared, so the traces must be identical too
+        if !same || a.logs != b.logs {
+            ctx.violation("c05.alias", &format!("if-vs-ternary:n={}", args.len().min(7)), &json!({"?:": args}), data, json!({"if": a.out.brief(), "logs": a.logs}), json!({"?:": b.out.brief(), "logs": b.logs}), "?: does not behave exactly like if");
+        }
+    }
+    // and / or return one of the operand VALUES (never a fresh boolean), judged without the model
+    for (op, obs, _) in results.iter().skip(2) {
+        if let Outcome::Ok(v) = &obs.out {
+            ctx.mon("c05.value-not-boolean").observed += 1;
+            // candidates: the values of literal operands
+            let lits: Vec<String> = items.iter().filter(|x| matches!(x.1, "falsy" | "truthy" | "truthy-corner")).map(|x| x.0.to_string()).collect();
+            if items.iter().all(|x| matches!(x.1, "falsy" | "truthy" | "truthy-corner")) {
+                ctx.mon("c05.value-not-boolean").judged += 1;
+                if !lits.contains(&v.to_string()) {
+                    ctx.violation("c05.value-not-boolean", &format!("{}-returns-non-operand", op), &json!({ *op: args }), data, json!(lits), obs.out.brief(), "and / or returned something that is not one of its operand values");
+                }
+            }
+        }
+    }
+}
+
+pub fn c05(ctx: &mut Ctx) {
+    let data = json!({"t": "yes", "f": 0, "deep": {"x": [1]}});
+    let datas = [data.clone(), json!({"t": [0], "f": ""}), json!({"t": {"a": 1}, "f": null}), Value::Null];
+    let mut p = Probes { n: 0 };
+    let mut idx = 0u64;
+    // all lists up to length 4 (quick: 3) over a 10-symbol alphabet
+    let alpha: [usize; 10] = [0, 2, 3, 5, 6, 7, 8, 9, 11, 13];
+    let maxlen = if ctx.thorough() { 4 } else { 3 };
+    c05_list(ctx, &[], &data);
+    let mut lists: Vec<Vec<usize>> = vec![vec![]];
+    for _ in 0..maxlen {
+        let mut next = Vec::new();
+        for l in lists.iter().filter(|l| l.len() == lists.last().unwrap().len()) {
+            for a in alpha.iter() {
+                let mut m = l.clone();
+                m.push(*a);
+                next.push(m);
+            }
+        }
+        for l in next.iter() {
+            idx += 1;
+            if ctx.mine(idx) {
+                let mut rr = ctx.rng.clone();
+                let items: Vec<(Value, &'static str)> = l.iter().map(|k| c05_symbol(*k, &mut p, &mut rr)).collect();
+                let d = &datas[(idx % 4) as usize];
+                c05_list(ctx, &items, d);
+            }
+        }
+        lists.extend(next);
+    }
+    ctx.exhaustive_parts.push(format!("all operand lists of length 0..{} over a 10-symbol alphabet (falsy / corner-truthy / data / poison / logging probes), each as if, ?:, and, or", maxlen));
+    // random longer lists and nesting
+    let n = ctx.budget(6_000, 900_000);
+    for i in 0..n {
+        let len = 4 + ctx.rng.below(4);
+        let mut rr = ctx.rng.clone();
+        let mut items: Vec<(Value, &'static str)> = Vec::new();
+        for _ in 0..len {
+            let k = ctx.rng.below(14);
+            let (v, cls) = c05_symbol(k, &mut p, &mut rr);
+            // nested control flow as an operand
+            if ctx.rng.chance(1, 5) {
+                let inner_op = *ctx.rng.pick(&["if", "and", "or", "?:"]);
+                let (v2, _) = c05_symbol(ctx.rng.below(14), &mut p, &mut rr);
+                let (v3, _) = c05_symbol(ctx.rng.below(14), &mut p, &mut rr);
+                items.push((json!({ inner_op: [v, v2, v3] }), "probe-nested"));
+            } else if ctx.rng.chance(1, 8) {
+                items.push((p.wrap(json!(ctx.rng.chance(1, 2))), "probe-wrapped"));
+            } else {
+                items.push((v, cls));
+            }
+        }
+
+        let d = &datas[(i % 4) as usize];
+        c05_list(ctx, &items, d);
+        if i % 500 == 0 {
+            ctx.sample(json!({"if": items.iter().map(|x| x.0.clone()).collect::<Vec<_>>()}));
+        }
+    }
+}
+
+// =======================================================================================
+// C13
+
+fn c13_case(ctx: &mut Ctx, rule: &Value, data: &Value, nontrivial: bool) -> Outcome {
+    let (obs, mo) = ctx.check("c13.model", rule, data);
+    let op = crate::ctx::top_op(rule);
+    ctx.cell(&format!("{}:{}", op, match &mo {
+        MOut::Val(_) => "value",
+        MOut::Err => "err",
+        MOut::Unj(_) => "unjudged",
+    }));
+    if nontrivial {
+        ctx.mark_nontrivial(rule, data);
+    }
+    obs.out
+}
+
+pub fn c13(ctx: &mut Ctx) {
+    let mut p = Probes { n: 0 };
+    let outer = json!({"outer": "OUTER", "current": "outer-current", "accumulator": "outer-acc", "a": 1, "k": "x", "items": [3, 1, 2], "nested": [[1, 2], [3], []], "objs": [{"a": 1, "outer": "el"}, {"a": 2}], "mix": [0, "", null, [], [0], "0", {}, false, true, -0.0, 2]});
+    let colls: Vec<Value> = vec![json!([]), json!([1]), json!([1, 2, 3]), json!([3, 1, 2]), json!(["a", "b", "c"]), json!([[1, 2], [3], []]), json!([{"a": 1}, {"a": 2}]), json!([0, "", null, [], [0], "0", {}, false]), var("items"), var("nested"), var("objs"), var("mix"), var("nope"), json!(null), json!({"merge": [[1], [2, [3]]]}), json!({"filter": [var("items"), {">": [var(""), 1]}]}), json!({"map": [var("items"), {"*": [var(""), 2]}]})];
+    let bad_colls: Vec<Value> = vec![json!("abc"), json!(5), json!(true), json!({}), json!({"a": 1}), var("a"), var("k"), var("outer")];
+    let map_exprs: Vec<Value> = vec![var(""), var("a"), var("outer"), var("current"), json!({"*": [var(""), 2]}), json!({"cat": [var(""), "!"]}), json!({"var": ["outer", "dflt"]}), json!({"if": [var(""), "T", "F"]}), json!({"merge": [var(""), [9]]}), json!({"map": [var(""), {"+": [var(""), 1]}]}), json!({"reduce": [var(""), {"+": [var("current"), var("accumulator")]}, 0]}), json!("const"), json!({"log": var("")}), json!({"/": [1, var("")]}), var("0"), var("-1")];
+    let mut idx = 0u64;
+    for c in colls.iter().chain(bad_colls.iter()) {
+        for e in map_exprs.iter() {
+            idx += 1;
+            if !ctx.mine(idx) {
+                continue;
+            }
+            let rule = json!({"map": [c, e]});
+            let out = c13_case(ctx, &rule, &outer, true);
+            // length preservation (no model): via the implementation's own evaluation of the collection
+            let coll_val = match ctx.observe(c, &outer).out {
+                Outcome::Ok(v) => Some(v),
+                _ => None,
+            };
+            // `c` alone is a literal array when written literally (not evaluated): handle both
+            let coll_len = match (c, &coll_val) {
+                (Value::Array(a), _) => Some(a.len()),
+                (_, Some(Value::Array(a))) => Some(a.len()),
+                (_, Some(Value::Null)) => Some(0),
+                _ => None,
+            };
+            ctx.mon("c13.map-length").observed += 1;
+            if let (Outcome::Ok(Value::Array(r)), Some(n)) = (&out, coll_len) {
+                ctx.mon("c13.map-length").judged += 1;
+                if r.len() != n {
+                    ctx.violation("c13.map-length", "length", &rule, &outer, json!({"length": n}), out.brief(), "map did not return one value per element");
+                }
+            }
+            // filter: a subsequence of identical elements
+            let frule = json!({"filter": [c, e]});
+            let fout = c13_case(ctx, &frule, &outer, true);
+            ctx.mon("c13.filter-subsequence").observed += 1;
+            let elems: Option<Vec<Value>> = match (c, coll_val) {
+                (Value::Array(a), _) => Some(a.clone()),
+                (_, Some(Value::Array(a))) => Some(a),
+                (_, Some(Value::Null)) => Some(vec![]),
+                _ => None,
+            };
+            if let (Outcome::Ok(Value::Array(r)), Some(els)) = (&fout, elems) {
+                ctx.mon("c13.filter-subsequence").judged += 1;
+                let mut it = els.iter();
+                let sub = r.iter().all(|x| it.any(|y| y.to_string() == x.to_string()));
+                if !sub {
+                    ctx.violation("c13.filter-subsequence", "subsequence", &frule, &outer, json!(els), fout.brief(), "filter result is not a subsequence of the (unchanged) input elements");
+                }
+            }
+        }
+    }
+    // reduce: fold order with non-commutative expressions, scoping, the exact two-key context
+    let red_exprs: Vec<Value> = vec![
+        json!({"+": [var("current"), var("accumulator")]}),
+        json!({"cat": [var("accumulator"), var("current")]}),
+        json!({"-": [var("accumulator"), var("current")]}),
+        json!({"merge": [var("accumulator"), [var("current")]]}),
+        json!({"merge": [[var("current")], var("accumulator")]}),
+        var(""),
+        var("outer"),
+        var("a"),
+        json!({"var": ["outer", "no-outer"]}),
+        json!({"missing": ["current", "accumulator", "outer", "a"]}),
+        json!({"if": [var("current"), var("accumulator"), "stop"]}),
+        json!({"cat": [var("accumulator.0"), var("current.a")]}),
+        json!({"log": var("current")}),
+        json!({"max": [var("current"), var("accumulator")]}),
+    ];
+    let inits: Vec<Value> = vec![json!(0), json!(""), json!([]), json!(null), var("a"), var("outer"), json!({"log": "init"}), json!({"+": [1, 2]}), var("nope")];
+    for c in colls.iter().chain(bad_colls.iter().take(3)) {
+        for e in red_exprs.iter() {
+            for i in inits.iter() {
+                idx += 1;
+                if ctx.mine(idx) {
+                    c13_case(ctx, &json!({"reduce": [c, e, i]}), &outer, true);
+                }
+            }
+        }
+    }
+    // probes: one evaluation per element, in order; collection evaluated once
+    for k in 0..6usize {
+        idx += 1;
+        if !ctx.mine(idx) {
+            continue;
+        }
+        let els: Vec<Value> = (0..k).map(|i| json!(i)).collect();
+        let coll = json!({"merge": [p.wrap(json!("")), els]});
+        for op in ["map", "filter"] {
+            c13_case(ctx, &json!({ op: [coll, {"log": {"cat": ["el-", var("")]}}] }), &outer, true);
+        }
+        c13_case(ctx, &json!({"reduce": [coll, {"log": {"cat": [var("accumulator"), "<", var("current")]}}, p.wrap(json!("I"))]}), &outer, true);
+    }
+    ctx.exhaustive_parts.push("25 collections x 16 element expressions (map, filter), 20 collections x 14 fold expressions x 9 initial values (reduce)".into());
+    // random nesting
+    let n = ctx.budget(5_000, 700_000);
+    let mut g = RuleGen::new();
+    g.ops = vec!["map", "filter", "reduce", "var", "merge", "cat", "+", "-", "if", ">", "!!", "log", "max"];
+    g.probes = 6;
+    g.poison = 2;
+    for i in 0..n {
+        let d = rand_data(&mut ctx.rng, 3, 0, &mut 0);
+        let op = *ctx.rng.pick(&["map", "filter", "reduce"]);
+        let coll = if ctx.rng.chance(1, 2) { Value::Array((0..ctx.rng.below(6)).map(|_| rand_value(&mut ctx.rng, 2)).collect()) } else { g.rule(&mut ctx.rng, &d, 2, 3) };
+        let scope = if op == "reduce" { json!({"current": rand_value(&mut ctx.rng, 1), "accumulator": rand_value(&mut ctx.rng, 1)}) } else { rand_value(&mut ctx.rng, 2) };
+        let e = g.rule(&mut ctx.rng, &scope, 2, 3);
+        let rule = if op == "reduce" { json!({ op: [coll, e, g.rule(&mut ctx.rng, &d, 1, 2)] }) } else { json!({ op: [coll, e] }) };
+        c13_case(ctx, &rule, &d, true);
+        if i % 400 == 0 {
+            ctx.sample(json!({"rule": rule, "data": d}));
+        }
+    }
+}
+
+// =======================================================================================
+// C14
+
+fn c14_case(ctx: &mut Ctx, coll: &Value, pred: &Value, data: &Value, cls: &str) {
+    let mut outs: Vec<Outcome> = Vec::new();
+    let mut logs: Vec<Vec<String>> = Vec::new();
+    for op in ["all", "some", "none"] {
+        let rule = json!({ op: [coll, pred] });
+        let (obs, mo) = ctx.check("c14.model", &rule, data);
+        ctx.cell(&format!("{}:{}:{}", op, cls, match &mo {
+            MOut::Val(v) => v.to_string(),
+            MOut::Err => "err".into(),
+            MOut::Unj(_) => "unjudged".into(),
+        }));
+        ctx.mark_nontrivial(&rule, data);
+        outs.push(obs.out);
+        logs.push(obs.logs);
+    }
+    // none = not some (outcome and effects), no model needed
+    ctx.mon("c14.none-is-not-some").observed += 1;
+    match (&outs[1], &outs[2]) {
+        (Outcome::Ok(Value::Bool(s)), Outcome::Ok(Value::Bool(n))) => {
+            ctx.mon("c14.none-is-not-some").judged += 1;
+            if s == n {
+                ctx.violation("c14.none-is-not-some", &format!("none-eq-some:{}", cls), &json!({"none": [coll, pred]}), data, json!({"some": s}), json!({"none": n}), "none is not the negation of some");
+            }
+        }
+        (Outcome::Err(_), Outcome::Err(_)) => {
+            ctx.mon("c14.none-is-not-some").judged += 1;
+        }
+        (a, b) => {
+            ctx.mon("c14.none-is-not-some").judged += 1;
+            ctx.violation("c14.none-is-not-some", &format!("none-some-differ-in-kind:{}", cls), &json!({"none": [coll, pred]}), data, a.brief(), b.brief(), "none and some do not succeed / fail together");
+        }
+    }
+    // duality on non-empty input: all(p) = none(not p)
+    let npred = json!({"!": [pred]});
+    let dual = ctx.observe(&json!({"none": [coll, npred]}), data);
+    ctx.mon("c14.all-none-duality").observed += 1;
+    if let (Outcome::Ok(Value::Bool(a)), Outcome::Ok(Value::Bool(d))) = (&outs[0], &dual.out) {
+        // empty collections make both `all` and `some` false, so the duality is stated for non-empty input
+        let some_any = ctx.observe(&json!({"some": [coll, true]}), data);
+        if let Outcome::Ok(Value::Bool(true)) = some_any.out {
+            ctx.mon("c14.all-none-duality").judged += 1;
+            if a != d {
+                ctx.violation("c14.all-none-duality", &format!("duality:{}", cls), &json!({"all": [coll, pred]}), data, json!({"none(not p)": d}), json!({"all(p)": a}), "all(p) differs from none(not p) on a non-empty collection");
+            }
+        }
+    }
+}
+
+pub fn c14(ctx: &mut Ctx) {
+    let mut p = Probes { n: 0 };
+    let data = json!({"a": 1, "z": 0, "items": [1, 2, 0], "s": "aé日😀", "empty": [], "str_empty": "", "n": null, "objs": [{"v": 1}, {"v": 0}], "ops": [{"log": "LEAK-el"}, {"var": "a"}], "t": true});
+    let preds: Vec<Value> = vec![var(""), json!({"!!": [var("")]}), json!({">": [var(""), 0]}), json!({"==": [var(""), "é"]}), json!({"in": [var(""), "aé"]}), var("v"), var("a"), json!(true), json!(false), json!({"log": var("")}), json!({"===": [var(""), 2]}), json!({"/": [1]}), json!([]), json!("0")];
+    let mut colls: Vec<(Value, &'static str)> = vec![
+        (json!([]), "empty-literal"),
+        (json!(null), "null-literal"),
+        (json!(""), "empty-string-literal"),
+        (var("empty"), "empty-computed"),
+        (var("n"), "null-computed"),
+        (var("str_empty"), "empty-string-computed"),
+        (var("nope"), "null-computed"),
+        (json!([1, 2, 0]), "literal-array"),
+        (json!([0, 0]), "literal-array"),
+        (json!([var("a"), var("z"), {"+": [1, 1]}]), "literal-array-of-expressions"),
+        (json!([var("z"), var("a")]), "literal-array-of-expressions"),
+        (var("items"), "computed-array"),
+        (var("objs"), "computed-array"),
+        (var("ops"), "computed-array-of-operation-shaped-data"),
+        (json!({"merge": [[1], [0]]}), "computed-array"),
+        (json!("aé日😀"), "multibyte-string-literal"),
+        (var("s"), "multibyte-string-computed"),
+        (json!({"cat": ["é", "é", "x"]}), "multibyte-string-computed"),
+        (json!("abc"), "ascii-string"),
+        (json!(5), "bad-literal"),
+        (json!(true), "bad-literal"),
+        (var("a"), "bad-computed"),
+        (var("t"), "bad-computed"),
+        (json!({}), "bad-object"),
+        (json!({"a": 1, "b": 2}), "bad-object"),
+        (var(""), "bad-computed"),
+    ];
+    // probes and poisons after the deciding position (literal arrays of expressions)
+    for k in 0..4 {
+        let mut els: Vec<Value> = Vec::new();
+        for j in 0..4 {
+            if j == k {
+                els.push(json!({"!": [{"log": format!("decider-{}", p.n)}]})); // false
+                p.n += 1;
+            } else if j > k && j % 2 == 1 {
+                els.push(json!({"/": [1]}));
+            } else {
+                els.push(p.truthy());
+            }
+        }
+        colls.push((Value::Array(els), "literal-with-probes-and-poison-after-decider"));
+    }
+    let mut idx = 0u64;
+    for (c, cls) in colls.iter() {
+        for pr in preds.iter() {
+            idx += 1;
+            if ctx.mine(idx) {
+                c14_case(ctx, c, pr, &data, cls);
+            }
+        }
+    }
+    // multi-byte strings: each char is one element (exhaustive over U up to length 3)
+    for s in u_strings(3) {
+        idx += 1;
+        if !ctx.mine(idx) {
+            continue;
+        }
+        for pr in [json!({"==": [var(""), "é"]}), json!({"in": [var(""), "a😀"]}), json!({"log": var("")})] {
+            c14_case(ctx, &json!(s), &pr, &json!({ "s": s }), "u-string-literal");
+            c14_case(ctx, &var("s"), &pr, &json!({ "s": s }), "u-string-computed");
+        }
+        // the number of elements seen equals the number of characters (counted through log lines)
+        let (obs, _) = ctx.check("c14.model", &json!({"all": [var("s"), {"log": var("")}]}), &json!({ "s": s }));
+        ctx.mon("c14.chars").observed += 1;
+        if let Outcome::Ok(_) = obs.out {
+            if crate::observe::capture_active() {
+                ctx.mon("c14.chars").judged += 1;
+                let want: Vec<String> = s.chars().map(|c| Value::String(c.to_string()).to_string()).collect();
+                if obs.logs != want {
+                    ctx.violation("c14.chars", "chars-not-bytes", &json!({"all": [var("s"), {"log": var("")}]}), &json!({ "s": s }), json!(want), json!(obs.logs), "a string collection was not taken character by character");
+                }
+            }
+        }
+    }
+    ctx.exhaustive_parts.push("30 collections x 14 predicates x {all, some, none}; all strings of length 0..3 over the multi-byte alphabet".into());
+    let n = ctx.budget(4_000, 600_000);
+    let mut g = RuleGen::new();
+    g.ops = vec!["var", "merge", "cat", "+", "if", ">", "!!", "log", "==", "!", "in", "and", "or", "filter", "map"];
+    g.probes = 8;
+    g.poison = 4;
+    for i in 0..n {
+        let d = rand_data(&mut ctx.rng, 3, 10, &mut 0);
+        let coll = match ctx.rng.below(5) {
+            0 => Value::Array((0..ctx.rng.below(6)).map(|_| g.rule(&mut ctx.rng, &d, 2, 2)).collect()),
+            1 => Value::String(u_random(&mut ctx.rng, 0, 6)),
+            2 => rand_scalar(&mut ctx.rng),
+            _ => g.rule(&mut ctx.rng, &d, 2, 3),
+        };
+        let scope = rand_value(&mut ctx.rng, 2);
+        let pred = g.rule(&mut ctx.rng, &scope, 2, 2);
+        c14_case(ctx, &coll, &pred, &d, "random");
+        if i % 400 == 0 {
+            ctx.sample(json!({"collection": coll, "predicate": pred, "data": d}));
+        }
+    }
+}
+
+// =======================================================================================
+// C04
+
+
+fn c04_case(ctx: &mut Ctx, rule: &Value, data: &Value, channel: &str) {
+    let (obs, mo) = ctx.check("c04.model", rule, data);
+    ctx.cell(&format!("channel:{}:{}", channel, match &mo {
+        MOut::Val(_) => "value",
+        MOut::Err => "err",
+        MOut::Unj(_) => "unjudged",
+    }));
+    // model-free: a line carrying a data-side marker can only come from interpreting data
+    ctx.mon("c04.leak").observed += 1;
+    ctx.mon("c04.leak").judged += 1;
+    // (only for rules without any `log` of their own: a rule-side log may legitimately print data)
+    if !obs.logs.is_empty() && !rule.to_string().contains("\"log\"") {
+        ctx.violation("c04.leak", &format!("data-executed:{}:{}", channel, crate::ctx::top_op(rule)), rule, data, json!("no line carrying a data-side marker"), json!({"lines": obs.logs, "outcome": obs.out.brief()}), "a value read from the data was interpreted as logic (its log line appeared)");
+    }
+    ctx.mark_nontrivial(rule, data);
+}
+
+/// Substitution law for eager operators: replacing operands by references to their
+/// precomputed values never changes the result.
+fn c04_substitution(ctx: &mut Ctx, op: &str, operands: &[Value], data: &Value) {
+    let rule = json!({ op: operands });
+    let direct = ctx.observe(&rule, data);
+    let mut vals: Vec<Value> = Vec::new();
+    for o in operands {
+        match ctx.observe(o, data).out {
+            Outcome::Ok(v) => vals.push(v),
+            _ => return, // an operand does not evaluate: the law says nothing
+        }
+    }
+    let refs: Vec<Value> = (0..operands.len()).map(|i| json!({ "var": i })).collect();
+    let rule2 = json!({ op: refs });
+    let data2 = Value::Array(vals);
+    let subst = ctx.observe(&rule2, &data2);
+    ctx.mon("c04.substitution").observed += 1;
+    ctx.mon("c04.substitution").judged += 1;
+    let same = match (&direct.out, &subst.out) {
+        (Outcome::Ok(a), Outcome::Ok(b)) => a.to_string() == b.to_string(),
+        (Outcome::Err(_), Outcome::Err(_)) => true,
+        _ => false,
+    };
+    if !same {
+        ctx.violation_x("c04.substitution", &format!("substitution:{}", op), &rule, data, direct.out.brief(), subst.out.brief(), "replacing operands by references to their precomputed values changed the result", json!({"substituted_rule": rule2, "substituted_data": data2}));
+    }
+    ctx.cell(&format!("substitution:{}", op));
+}
+
+pub fn c04(ctx: &mut Ctx) {
+    let markers: Vec<Value> = vec![
+        json!({"log": "LEAK-1"}),
+        json!({"var": "secret"}),
+        json!({"+": ["x"]}),
+        json!({"if": [true, {"log": "LEAK-2"}, 2]}),
+        json!({"/": [1]}),
+        json!({"cat": ["LEAK-", {"var": "secret"}]}),
+        json!({"all": [[{"log": "LEAK-3"}], true]}),
+        json!({"missing": ["secret"]}),
+        json!({"var": ""}),
+        json!({"!": [{"log": "LEAK-4"}]}),
+    ];
+    let mut idx = 0u64;
+    for m in markers.iter() {
+        let data = json!({"x": m, "secret": 424242, "items": [m, 1, m], "nested": {"deep": [[m]]}, "keys": ["x", "secret"], "one": [m], "s": "str", "zero": 0});
+        // every "computed value" channel
+        let channels: Vec<(&str, Value)> = vec![
+            ("var", json!({"var": "x"})),
+            ("var-int", json!({"var": ["items.0"]})),
+            ("var-nested", json!({"var": "nested.deep.0.0"})),
+            ("var-whole", json!({"var": ""})),
+            ("var-default-literal", json!({"var": ["nope", m]})),
+            ("var-default-computed", json!({"var": ["nope", {"var": "x"}]})),
+            ("var-default-nested", json!({"var": ["nope", {"var": ["nope2", {"var": "x"}]}]})),
+            ("if-result", json!({"if": [true, {"var": "x"}, 0]})),
+            ("if-cond", json!({"if": [{"var": "x"}, "T", "F"]})),
+            ("if-else", json!({"if": [false, 0, {"var": "x"}]})),
+            ("and-result", json!({"and": [1, {"var": "x"}]})),
+            ("or-result", json!({"or": [0, {"var": "x"}]})),
+            ("map-elements", json!({"map": [{"var": "items"}, {"var": ""}]})),
+            ("map-result-of-expr", json!({"map": [[1, 2], {"var": ["nope", "unused"]}]})),
+            ("filter-elements", json!({"filter": [{"var": "items"}, {"var": ""}]})),
+            ("filter-predicate-value", json!({"filter": [{"var": "items"}, true]})),
+            ("reduce-elements", json!({"reduce": [{"var": "items"}, {"var": "current"}, 0]})),
+            ("reduce-accumulator", json!({"reduce": [[1, 2], {"var": "accumulator"}, {"var": "x"}]})),
+            ("reduce-initial", json!({"reduce": [[], {"var": "accumulator"}, {"var": "x"}]})),
+            ("reduce-merge", json!({"reduce": [{"var": "items"}, {"merge": [{"var": "accumulator"}, [{"var": "current"}]]}, []]})),
+            ("all-computed", json!({"all": [{"var": "items"}, true]})),
+            ("some-computed", json!({"some": [{"var": "items"}, {"!!": [{"var": ""}]}]})),
+            ("none-computed", json!({"none": [{"var": "one"}, {"===": [{"var": ""}, 424242]}]})),
+            ("all-computed-merge", json!({"all": [{"merge": [{"var": "x"}, [{"var": "x"}]]}, {"!!": [{"var": ""}]}]})),
+            ("some-literal-elements-are-code", json!({"some": [[{"var": "x"}, {"var": "zero"}], {"!!": [{"var": ""}]}]})),
+            ("all-predicate-sees-marker", json!({"all": [{"var": "one"}, {"var": ""}]})),
+            ("merge", json!({"merge": [{"var": "x"}, {"var": "items"}]})),
+            ("cat", json!({"cat": [{"var": "x"}, {"var": "one"}]})),
+            ("eq", json!({"==": [{"var": "x"}, "[object Object]"]})),
+            ("strict-eq", json!({"===": [{"var": "x"}, {"var": "x"}]})),
+            ("in", json!({"in": [{"var": "x"}, {"var": "items"}]})),
+            ("not", json!({"!": [{"var": "x"}]})),
+            ("log", json!({"log": [{"var": "s"}]})),
+            ("missing-keys-from-data", json!({"missing": {"var": "keys"}})),
+            ("missing_some-keys-from-data", json!({"missing_some": [1, {"var": "keys"}]})),
+            ("key-from-data", json!({"var": [{"var": "keys.0"}]})),
+            ("max-of-marker", json!({"max": [{"var": "x"}]})),
+            ("plus-of-marker", json!({"+": [{"var": "one"}]})),
+            ("substr-of-marker", json!({"substr": [{"var": "x"}, 0]})),
+            ("less-than", json!({"<": [{"var": "x"}, {"var": "x"}]})),
+        ];
+        for (name, rule) in channels.iter() {
+            idx += 1;
+            if ctx.mine(idx) {
+                c04_case(ctx, rule, &data, name);
+                // the same, one level deeper in an eager and a lazy context
+                c04_case(ctx, &json!({"merge": [rule, [rule]]}), &data, name);
+                c04_case(ctx, &json!({"if": [rule, rule, rule]}), &data, name);
+            }
+        }
+    }
+    ctx.exhaustive_parts.push("10 operation-shaped marker values x 40 channels through which a data / computed value can reach an operator, each also nested in an eager and a lazy context".into());
+    // substitution law: 22 eager operators x operand expressions
+    let d = json!({"a": 3, "b": "4", "arr": [1, [2], "x"], "s": "héllo", "o": {"k": 1}, "n": null, "x": {"var": "a"}});
+    let exprs: Vec<Value> = vec![var("a"), var("b"), var("arr"), var("s"), var("o"), var("n"), var("x"), json!({"+": [var("a"), 1]}), json!({"cat": [var("s"), var("b")]}), json!({"merge": [var("arr"), 0]}), json!({"if": [var("n"), 1, var("arr.1")]}), json!({"var": ["zz", var("x")]}), json!({"map": [var("arr"), var("")]}), json!(2), json!("lit"), json!([1, 2]), json!({"substr": [var("s"), 1, 2]}), json!({"!": [var("o")]}), json!({"-": [var("a")]})];
+    for op in EAGER_OPS.iter() {
+        for a in exprs.iter() {
+            idx += 1;
+            if !ctx.mine(idx) {
+                continue;
+            }
+            if refsem::arity_ok(op, 1) == Some(true) && *op != "log" {
+                c04_substitution(ctx, op, &[a.clone()], &d);
+            }
+            for b in exprs.iter() {
+                if refsem::arity_ok(op, 2) == Some(true) {
+                    c04_substitution(ctx, op, &[a.clone(), b.clone()], &d);
+                }
+                if refsem::arity_ok(op, 3) == Some(true) && ctx.rng.chance(1, 4) {
+                    let c = ctx.rng.pick(&exprs).clone();
+                    c04_substitution(ctx, op, &[a.clone(), b.clone(), c], &d);
+                }
+            }
+        }
+    }
+    // random: data trees with markers everywhere, random rules reading them
+    let n = ctx.budget(8_000, 1_200_000);
+    let mut g = RuleGen::new();
+    g.probes = 4;
+    g.poison = 1;
+    let mut mk = 0u64;
+    for i in 0..n {
+        let mut data = rand_data(&mut ctx.rng, 4, 45, &mut mk);
+        if let Value::Object(m) = &mut data {
+            m.insert("secret".into(), json!(424242));
+        }
+        let rule = g.rule(&mut ctx.rng, &data, 3, 3);
+        // only rule-side text may carry LEAK (the generator never produces it)
+        c04_case(ctx, &rule, &data, "random");
+        if ctx.rng.chance(1, 3) {
+            let op = *ctx.rng.pick(&EAGER_OPS);
+            if op != "log" {
+                let k = match op {
+                    "!" | "!!" => 1,
+                    "==" | "!=" | "===" | "!==" | "/" | "%" | "in" => 2,
+                    "<" | "<=" | ">" | ">=" | "substr" => 2 + ctx.rng.below(2),
+                    "-" => 1 + ctx.rng.below(2),
+                    _ => 1 + ctx.rng.below(3),
+                };
+                let mut g2 = RuleGen::new();
+                g2.probes = 0;
+                g2.poison = 0;
+                g2.ops.retain(|o| *o != "log");
+                let operands: Vec<Value> = (0..k).map(|_| g2.rule(&mut ctx.rng, &data, 2, 2)).collect();
+                // log-free operand expressions only (effects would legitimately differ)
+                if !Value::Array(operands.clone()).to_string().contains("\"log\"") {
+                    c04_substitution(ctx, op, &operands, &data);
+                }
+            }
+        }
+        if i % 600 == 0 {
+            ctx.sample(json!({"rule": rule, "data": data}));
+        }
+    }
+    let _ = type_name;
+}
